@@ -26,6 +26,9 @@ def run(ctx):
     from .. import twomark as _twomark, samename as _samename
     _twomark.run(ctx, 'C06', ctx.rng, ctx.n(60, 700), ['oer'])
     _samename.run(ctx, 'C06', ctx.rng, ctx.n(4, 40), codecs=['oer'])
+    from .. import scripted as _scripted
+    _scripted.oer_default_bits(ctx)
+    _scripted.set_as_sequence(ctx, ctx.rng, ctx.n(8, 80), ['oer'])
 
 
 def replay(ctx, path):
